@@ -143,7 +143,7 @@ def run(ctx: core.Ctx):
     for i in range(n):
         spec = gen.conn_callbacks(rng)
         jobs.append((spec, rng.randrange(10 ** 9), rng.choice([0, 0, 3, 6])))
-    for i in range(6000 if thorough else 120):
+    for i in range(20000 if thorough else 800):
         jobs.append((gen.conn_reg_race(rng), rng.randrange(10 ** 9), 0))
     results = b2.explore(jobs, ["C09"])
     b2.close_pool()
